@@ -60,7 +60,7 @@ CLAIMED['C20'] = dict(
     note='AX-SHA1 (incl. collision resistance); write_hash under contract (20 bytes at 960, fed by the digest run_conversion_loop returns); accessor / re-blocker copy of the hash: bounded (C12) / not covered')
 CLAIMED['C11'] = dict(
     text='Proof per function (modular): window acceptance in SeismicFileConverter.__init__ (0 is a bound), header-array sizing, make_header window words, io_thread_func '
-         '(window samples + header capture; unrolled per inline block extent 4/8[/16]), seismic_file_producer (layout agreement for the window shape, hash of the window rows) -- '
+         '(window samples + header capture; symbolic inline block extent), seismic_file_producer (layout agreement for the window shape, hash of the window rows) -- '
          'all cube shapes and all windows. Glue (run, run_conversion_loop) by data-flow contracts; the CLI is not under contract.',
     note='AX-SEGYIO-R handle model; reduce_iops falls back to segyio for windows (fix 7a327a8); composition by modularity')
 CLAIMED['C04'] = dict(
@@ -70,14 +70,14 @@ CLAIMED['C04'] = dict(
          'Unbounded in trace count and header values; the loops over the 89 header words are unrolled on tables with few non-trivial entries.',
     note='AX-SEGYIO-ENUM/-R, AX-NP-ALL; composition by modularity; found and fixed D3 (512 padding), D4 (int64 arrays), D34 (array order)')
 CLAIMED['C09'] = dict(
-    text='Proof per function of the 2-D chain: blockshape validation, header words, trace-group capture (unrolled per group extent 4/8/16[/32]), producer layout agreement (spec_off2) and hash, '
+    text='Proof per function of the 2-D chain: blockshape validation, header words, trace-group capture (symbolic group extent), producer layout agreement (spec_off2) and hash, '
          'reader construction (2-D branch incl. sample axis), 2-D loaders, read_subplane/get_trace windows, refusal of volume-style reads, gen_trace_header -- all trace/sample counts, per valid setting.',
     note='2-D detection in detect_geometry and the accessors of seismic_zfp.open not under contract; AX-ZFP 2-D, AX-SEGYIO-R; found and fixed D10 (2-D hash covered padding traces)')
 CLAIMED['C08'] = dict(
     text='Proof per function: inferred axis (get_range), irregular header words, placement by (inline, crossline) lookup with zero-filled holes and padding (guarded family stores), '
          'producer layout agreement for the zero-filled grid, reader structured flag, population mask and ordinal-to-grid mapping in get_trace. All grids / populations; '
          'traces_ref construction and header reads of irregular files (masked arrays in read_variant_headers) not under contract.',
-    note='AX-NP-WHERE, AX-SEGYIO-R; io thread func unrolled for b0 in {4,8}; found and fixed D9 (increments written to the wrong words)')
+    note='AX-NP-WHERE, AX-SEGYIO-R, LEMMA-RANGE-LEN; found and fixed D9 (increments written to the wrong words)')
 CLAIMED['C06'] = dict(
     text='Proof per function of the exporter up to the segyio boundary: spec = reader axes, format from the stored binary header (IBM/IEEE kept, otherwise IBM with only the format word patched), '
          'all traces and headers in ordinal order with the decoded samples / regenerated headers, stored 3600-byte SEG-Y file header written verbatim. What segyio writes from that spec is assumed.',
